@@ -226,7 +226,13 @@ func lifecycleTraces(h H) *lifeResult {
 				trace = append(trace, n)
 				return outcome(n), true
 			case strings.HasSuffix(callee, "casket.startWithListenerFds"):
-				trace = append(trace, "START-NEW")
+				// a reload hands the new instance a (possibly empty) table of inherited sockets; a nil table is what
+				// tells startWithListenerFds that this is the first start (first-startup callbacks run)
+				if _, isNil := args[len(args)-1].(anil); isNil {
+					trace = append(trace, "START-NEW-AS-FIRST-START(nil socket table)")
+				} else {
+					trace = append(trace, "START-NEW")
+				}
 				if p, ok := args[1].(aptr); ok {
 					newInst = p.obj
 				}
